@@ -396,6 +396,76 @@ def r3_no_block_metadata(ctx, P):
         ctx.inst(R, "ChunkHeader", names == ["pos", "end", "prev", "next", "allocator"], f"ChunkHeader fields: {names}", site="fields")
 
 
+def r4_rotation_siblings(ctx, P, R="C16.R4"):
+    ctx.rule(R, "the four split_off implementations (BumpBox<[T]>, BumpBox<str>, FixedBumpVec, FixedBumpString) agree on how an "
+                "interior range is brought to an edge: under `head < tail` the prefix (..end) is rotated right, otherwise the "
+                "suffix (start..) is rotated left, both by the range length - a sibling with another direction / sub-slice "
+                "returns the wrong elements (for strings: torn characters)")
+    sigs = {}
+    for b in P.fn_bodies():
+        if b.item["name"] != "split_off":
+            continue
+        impl = P.impl_of_item.get(b.item["id"])
+        if not impl or impl.get("trait"):
+            continue
+        rots = [(s_, t) for s_, t in b.calls() if t["f"].get("name") in ("rotate_left", "rotate_right") and t["f"].get("krate") == "core"]
+        if not rots:
+            continue
+        te, fe = b.cond_edges(lambda e: True if (e[0] == "bin" and e[1] == "Lt") else None)
+        sig = set()
+        for s_, t in rots:
+            a0 = b.prov_operand(t["args"][0], s_)
+            kind = "other"
+            for x in walk_expr(a0):
+                if x[0] == "call" and x[1].split("::")[-1] in ("get_unchecked_mut", "index_mut", "get_mut") and len(x[2]) >= 2:
+                    idx = x[2][1]
+                    while idx[0] in ("ref", "deref", "cast"):
+                        idx = idx[1] if idx[0] != "cast" else idx[2]
+                    if idx[0] == "agg":
+                        kind = str(idx[1]).split("::")[-1]
+                    break
+            pol = "head<tail" if b.controlled_by(s_, te, cleanup=False) else "head>=tail" if b.controlled_by(s_, fe, cleanup=False) else "uncond"
+            amt = b.prov_operand(t["args"][1], s_)
+            amt_ok = amt[0] == "bin" and amt[1].startswith("Sub")
+            sig.add((pol, t["f"]["name"], kind, "end-start" if amt_ok else show(amt)[:30]))
+        sigs[b.path] = (b, frozenset(sig))
+    if not ctx.need(len(sigs) >= 4, R, f"split_off implementations with rotations (found {len(sigs)})"):
+        return
+    votes = {}
+    for pth, (b, sg) in sigs.items():
+        votes[sg] = votes.get(sg, 0) + 1
+    best = max(votes.values())
+    major = [sg for sg, v in votes.items() if v == best]
+    want = frozenset({("head<tail", "rotate_right", "RangeTo", "end-start"), ("head>=tail", "rotate_left", "RangeFrom", "end-start")})
+    for pth, (b, sg) in sorted(sigs.items()):
+        ok = sg == want
+        ctx.inst(R, pth, ok, f"rotations {sorted(sg)}" if ok else
+                 f"rotations {sorted(sg)} differ from the scheme of the sibling implementations {sorted(want)}: the range is moved to the "
+                 "wrong edge / in the wrong direction, so the two parts contain the wrong elements", where=b.where(), site="rotation scheme")
+
+
+def r5_merge_consumes_operands(ctx, P, R="C16.R5"):
+    ctx.rule(R, "merge takes over the elements of both operands: on every returning path both BumpBox operands were moved out "
+                "(into_raw), so neither is dropped - otherwise every element is dropped by the operand and again by the merged slice")
+    bs = [b for b in P.fn_bodies() if b.item["name"] == "merge" and b.path.startswith("bump_box::BumpBox::<'a, [T]>::")]
+    if not ctx.need(len(bs) == 1, R, "BumpBox<[T]>::merge"):
+        return
+    b = bs[0]
+    irs = b.calls_to(lambda f: f.get("name") == "into_raw")
+    for k in (1, 2):
+        nm = b.locals[k].get("name") or f"_{k}"
+        moved_blocks = [s_.bb for s_, t in irs if strip_ref(b.prov_operand(t["args"][0], s_))[0] == "param" and
+                        strip_ref(b.prov_operand(t["args"][0], s_))[1] == k]
+        okm, _ = b.must_pass(None, moved_blocks, exits=(RET,), cleanup=False, from_edge=0)
+        dropped = [s_ for s_, t in b.drops() if t["p"]["l"] == k and not t["p"]["p"] and not b.is_cleanup(s_.bb) and
+                   RET in b.reach([s_.bb], cleanup=False)]
+        # a drop terminator of a moved-out local may remain behind a drop flag; what matters is that every returning path moved it
+        ok = okm
+        ctx.inst(R, b.path, ok, f"`{nm}` is moved out by into_raw() on every returning path" if ok else
+                 f"a returning path does not move `{nm}` out (into_raw): the operand is dropped at the end of merge although the merged "
+                 "slice now owns its elements - each element is dropped twice", where=b.where(), site=f"operand {nm} consumed")
+
+
 def run(ctx, progs):
     ctx.assume("affine value numbering: pointer add/sub scaled by the symbolic element size; rotate_*, range, len are "
                "uninterpreted; no path-feasibility reasoning (identities must hold on every syntactic path)")
@@ -404,4 +474,6 @@ def run(ctx, progs):
         r1_partitions(ctx, P)
         r2_validation_first(ctx, P)
         r3_no_block_metadata(ctx, P)
+        r4_rotation_siblings(ctx, P)
+        r5_merge_consumes_operands(ctx, P)
     ctx.config = None
